@@ -20,6 +20,8 @@ pub enum Sender {
     AccountUnauthorised,
     /// the account authorised a call with another payload
     AccountAuthorisedOtherPayload,
+    /// the account authorised a call to another destination: the chain (true) or the address (false) is one character longer
+    AccountAuthorisedOtherDestination(bool),
     /// another account authorised this exact call
     OtherAccountAuthorised,
     ContractAsItself,
@@ -129,6 +131,7 @@ impl Property for C13 {
                 4 => Just(Sender::AccountAuthorised),
                 1 => Just(Sender::AccountUnauthorised),
                 1 => Just(Sender::AccountAuthorisedOtherPayload),
+                1 => any::<bool>().prop_map(Sender::AccountAuthorisedOtherDestination),
                 1 => Just(Sender::OtherAccountAuthorised),
                 3 => Just(Sender::ContractAsItself),
                 1 => Just(Sender::ContractNamingAnAccount),
@@ -243,6 +246,18 @@ impl Property for C13 {
                 let inv = MockAuthInvoke { contract: &gw.id, fn_name: "call_contract", args: call_args(&acct, &payload), sub_invokes: &[] };
                 env.mock_auths(&[MockAuth { address: &acct, invoke: &inv }]);
             }
+            Sender::AccountAuthorisedOtherDestination(which) => {
+                let mut c2 = chain_b.clone();
+                let mut a2 = addr_b.clone();
+                if which {
+                    c2.push(b'x');
+                } else {
+                    a2.push(b'x');
+                }
+                let args: soroban_sdk::Vec<soroban_sdk::Val> = (acct.clone(), sstr_bytes(&env, &c2), sstr_bytes(&env, &a2), payload.clone()).into_val(&env);
+                let inv = MockAuthInvoke { contract: &gw.id, fn_name: "call_contract", args, sub_invokes: &[] };
+                env.mock_auths(&[MockAuth { address: &acct, invoke: &inv }]);
+            }
             Sender::AccountAuthorisedOtherPayload => {
                 let inv = MockAuthInvoke { contract: &gw.id, fn_name: "call_contract", args: call_args(&acct, &p2), sub_invokes: &[] };
                 env.mock_auths(&[MockAuth { address: &acct, invoke: &inv }]);
@@ -289,7 +304,7 @@ impl Property for C13 {
                 let r = gw.client.try_call_contract(&acct, &chain, &addr, &payload);
                 (acct.clone(), matches!(r, Ok(Ok(()))), true)
             }
-            Sender::AccountUnauthorised | Sender::AccountAuthorisedOtherPayload | Sender::OtherAccountAuthorised | Sender::AccountUnauthorisedAfterOwnInboundMessage => {
+            Sender::AccountUnauthorised | Sender::AccountAuthorisedOtherPayload | Sender::AccountAuthorisedOtherDestination(_) | Sender::OtherAccountAuthorised | Sender::AccountUnauthorisedAfterOwnInboundMessage => {
                 let r = gw.client.try_call_contract(&acct, &chain, &addr, &payload);
                 (acct.clone(), matches!(r, Ok(Ok(()))), false)
             }
